@@ -5,6 +5,11 @@ ROOT = os.path.join(os.path.dirname(os.path.abspath(__file__)), "..")
 props = [json.loads(l) for l in open(os.path.join(ROOT, "properties.jsonl")) if l.strip()]
 
 CLAIMS = {
+    "C01": dict(
+        text="Lean 4 theorems over every well-formed bundle value (all field widths, any number of blocks, all EID kinds, every prior CRC state): decode(encode b) = b-after-encoding (Bp7.C01.decode_encode), idempotence, and 'only CRC values change'. The decoder in the theorem is a model of serde_cbor's visitor-driven parser (depth counter, size hints, swallowed dtn-ssp errors), not a generic CBOR parser. Tie to the code: every generated bundle is encoded and decoded by the real crate and by the compiled model and bytes + decoded value + stored CRCs are compared; the element order of the Serialize/Deserialize impls is re-extracted and re-proved on every run.",
+        note="Trusted: Lean kernel; axioms propext, Quot.sound; the hand-written model of serde/serde_cbor/serde_bytes behaviour (modelled from source, exercised by correspondence); generators.",
+        technique="Lean 4 proof (reader/writer round-trip lemmas composed by induction on the block list) + differential correspondence check",
+        design="§6 C01"),
     "C18": dict(
         text="Lean 4 theorems over all byte strings: unhexify(hexify b) = b; even-length hex -> bytes -> lower-case hex; every other string is rejected with an error, never a panic (the model represents Rust's slice-range and char-boundary panics and from_str_radix's '+' explicitly). Tie to the code: the real helpers run in-process against the compiled model on exhaustive short strings, an alphabet sweep and random strings; extracted format/radix/step facts are re-proved on every run.",
         note="Trusted: Lean kernel; axioms propext, Classical.choice, Quot.sound; the hand-written model of &str slicing and u8::from_str_radix; the correspondence harness.",
